@@ -135,3 +135,28 @@ pub fn monitor_leave(ev: &str, kind: &str, ok: bool, pre: u64, post: u64) {
         }
     }
 }
+
+/// Appends a note about a step inside a transaction to the per-thread trace file: `ev` is "sub"
+/// (a sub-message has just been executed: `kind` = its reply_on, `ok` = its result) or "reply"
+/// (the reply entry point is about to be called: `ok` = the result it carries); `id` goes to `pre`.
+pub fn monitor_note(ev: &str, kind: &str, ok: bool, id: u64) {
+    if let Some(dir) = std::env::var_os("CW_MT_VERIF_TRACE") {
+        let name = format!(
+            "{}-{:?}.ndjson",
+            std::process::id(),
+            std::thread::current().id()
+        )
+        .replace(['(', ')'], "");
+        let path = std::path::Path::new(&dir).join(name);
+        if let Ok(mut f) = std::fs::OpenOptions::new()
+            .create(true)
+            .append(true)
+            .open(path)
+        {
+            let _ = writeln!(
+                f,
+                "{{\"ev\":\"{ev}\",\"kind\":\"{kind}\",\"ok\":{ok},\"pre\":\"{id}\",\"post\":\"\"}}"
+            );
+        }
+    }
+}
